@@ -21,14 +21,18 @@ T == Traces[tid]
 E == T.events[l]
 
 TraceInit == /\ tid \in 1..NTraces /\ l = 1
-             /\ Init /\ n = T.n /\ raiseAt = T.raiseAt
+             /\ Init /\ n = T.n /\ raiseAt = T.raiseAt /\ failAt = T.failAt
 
 Ev(name) == l <= Len(T.events) /\ E.e = name /\ l' = l + 1 /\ UNCHANGED tid
 Silent == UNCHANGED <<tid, l>>
 
 TraceNext ==
   \* ---- main
-  \/ (Ev("send_start") /\ MSendStart)
+  \/ (Ev("send_start") /\ MSendStart /\ failAt # 1)
+  \/ (Ev("send_fail") /\ MSendStart /\ failAt = 1)
+  \/ (Ev("send_fail") /\ MSendBody /\ failAt = sends + 1)
+  \/ (Ev("send_fail") /\ MSendFinal /\ failAt = sends + 1)
+  \/ (Ev("sendfailed") /\ MSendFailed)
   \/ (Ev("spawn_wait") /\ MSpawn)
   \/ (Ev("spawn_push") /\ MTop /\ ~rsStarted /\ rsStarted')
   \/ (Silent /\ MTop /\ rsStarted)
@@ -37,14 +41,14 @@ TraceNext ==
   \/ (Ev("get") /\ (MLoop \/ MWake) /\ q # <<>> /\ Head(q) = E.x)
   \/ (Silent /\ MLoop /\ ppc = "done" /\ q = <<>>)
   \/ (Ev("timeout") /\ MTimeout)
-  \/ (Ev("send_body") /\ MSendBody /\ cur = E.x /\ cur # Ping)
-  \/ (Ev("send_ping") /\ MSendBody /\ cur = Ping)
+  \/ (Ev("send_body") /\ MSendBody /\ cur = E.x /\ cur # Ping /\ failAt # sends + 1)
+  \/ (Ev("send_ping") /\ MSendBody /\ cur = Ping /\ failAt # sends + 1)
   \/ (Silent /\ MSent)
   \/ (Ev("cancel_push") /\ MRsFin /\ E.r = (ppc # "done") /\ E.x = Len(q'))
   \/ (Ev("cancel_wait") /\ MFin)
   \/ (Ev("cancel_push") /\ MAclose /\ rsStarted /\ ~rsFinished /\ E.r = (ppc # "done") /\ E.x = Len(q'))
   \/ (Silent /\ MAclose /\ ~(rsStarted /\ ~rsFinished))
-  \/ (Ev("send_final") /\ MSendFinal)
+  \/ (Ev("send_final") /\ MSendFinal /\ failAt # sends + 1)
   \/ (Ev("return") /\ MReturn)
   \/ (Ev("raise") /\ MRaise)
   \* ---- push
